@@ -121,7 +121,7 @@ class Run:
         identifiers = list(w.by_identifier)
         nicks = list(w.by_identifier.values())
         strategy = rng.choice(['CONFIG', 'LESS_LOADED', 0, 2, 'LOCAL'])
-        bad_strategy = rng.choice(['NOPE', 99, -1, 'config '])
+        bad_strategy = rng.choice(['NOPE', 99, -1, 'config ', True, False, 1.0, ['CONFIG']])
         expected = None
 
         def app_arg(need_managed):
